@@ -113,6 +113,8 @@ func c07Specs(c *run.Ctx) []built {
 		spec.Spec{Name: "c07-prefixed-style-rule", Base: "new", Calls: []C{els("p", "span"), {Op: "AllowElementsMatching", Re: reMy},
 			{Op: "AllowStyles", Names: []string{"-webkit-box-shadow", "mso-color"}, Enum: []string{"none", "red"}, Scope: "on", On: []string{"p"}},
 			{Op: "AllowStyles", Names: []string{"-moz-box-shadow"}, Enum: []string{"none"}, Scope: "global"},
+			{Op: "AllowStyles", Names: []string{"box-shadow"}, Enum: []string{"inherit", "unset"}, Scope: "on", On: []string{"p"}},
+			{Op: "AllowStyles", Names: []string{"box-shadow"}, Enum: []string{"initial"}, Scope: "global"},
 			{Op: "AllowStyles", Names: []string{"-webkit-line-clamp"}, Enum: []string{"3"}, Scope: "matching", OnRe: reMy}}},
 		// custom matchers bound through an element pattern whose accepted values no default handler accepts
 		spec.Spec{Name: "c07-style-pattern-custom-values", Base: "new", Calls: []C{els("p"), {Op: "AllowElementsMatching", Re: reMy},
@@ -161,7 +163,12 @@ func styleWitnesses(v *spec.View, el string) []string {
 	seen := map[string]bool{}
 	for _, prop := range names {
 		var cands []string
-		for _, r := range v.StyleRules(el, prop) {
+		rules := v.StyleRules(el, prop)
+		if plain := dePrefix(prop); plain != prop {
+			// a declaration under a vendor-prefixed name is also governed by the rules for the plain name
+			rules = append(append([]spec.StyleRule{}, rules...), v.StyleRules(el, plain)...)
+		}
+		for _, r := range rules {
 			switch {
 			case r.Handler != nil:
 				cands = append(cands, "red", "green", "abc")
